@@ -338,8 +338,12 @@ def main():
                     except Exception as e:
                         one[name] = {'crash': type(e).__name__ + ': ' + str(e)[:120]}
                 rec['explicit'].append(one)
-            # ... and back to the submission itself: the first pattern again
+            # ... and back to the submission itself: the first pattern again (in between the Source tool was asked about another text)
             if case['patterns']:
+                try:
+                    verify('print("a text that is not the submission")\n')
+                except Exception:
+                    pass
                 try:
                     ms = find_matches(case['patterns'][0])
                     rec['rerun'] = {'n': len(ms), 'bindings': [bindings(m) for m in ms]}
@@ -431,6 +435,19 @@ def main():
                 rec['own_report'] = {'n': len(ms), 'bindings': [bindings(m) for m in ms]}
             except Exception as e:
                 rec['own_report'] = {'crash': type(e).__name__ + ': ' + str(e)[:120]}
+        # the submission contextualised afresh, the Source tool asked about ANOTHER text, then the first search of the submission
+        if case['patterns']:
+            from pedal.source import verify as _verify
+            _ctx(case['program'])
+            try:
+                _verify('print("a text that is not the submission")\n')
+            except Exception:
+                pass
+            try:
+                ms = find_matches(case['patterns'][0])
+                rec['after_foreign_verify'] = {'n': len(ms), 'bindings': [bindings(m) for m in ms]}
+            except Exception as e:
+                rec['after_foreign_verify'] = {'crash': type(e).__name__ + ': ' + str(e)[:120]}
         rec['seconds'] = round(_time.time() - _t0, 2)
         out.append(rec)
     json.dump(out, open(sys.argv[1], 'w'))
